@@ -205,8 +205,8 @@ F_RUNNER = ["main.go", "pkg/config/config.go", "pkg/runner/runner.go", "pkg/gene
 MODELLED = {
     "C01": F_BUILDER + F_METHOD + F_HOOKS + ["pkg/parser/parser.go:Parser.Parse"],
     "C02": F_BUILDER + F_METHOD,
-    "C03": F_PARSER + F_RUNNER + F_METHOD,
-    "C04": F_BUILDER + ["pkg/option/option.go"],
+    "C03": F_PARSER + F_RUNNER + F_METHOD + F_HOOKS + ["pkg/parser/comment.go"],
+    "C04": F_BUILDER + ["pkg/option/option.go", "pkg/parser/interface.go", "pkg/parser/method.go", "pkg/parser/comment.go"],
     "C05": F_BUILDER + ["pkg/logger/logger.go"],
     "C06": F_BUILDER + F_NOTATION,
     "C07": ["pkg/builder/assignment.go", "pkg/builder/model/node.go", "pkg/builder/model/struct.go", "pkg/builder/method.go",
@@ -262,7 +262,8 @@ PROPS = {
         "bridge": RENDER + NODES + DEC("Cast", "Match"),
         "extra_modules": ["Convergen.Props.BuilderInv", "Convergen.Props.Cover", "Convergen.Props.Rooted"],
         "sweeps": [sweep_runtime(60, 1500), sweep_front("nesting", 120, 3000, cats=["body", "slice"]),
-                   sweep_front("scoping", 80, 2000, cats=["body", "slice"])],
+                   sweep_front("scoping", 80, 2000, cats=["body", "slice"]),
+                   sweep_front("notations", 80, 2000, cats=["body", "slice"])],
         "rule": FRONT_RULE % "nesting/scoping" + RUNTIME_RULE,
         "explanation": "abstract execution of the statement tree, for every result of structToStruct (all type tables, option sets, "
                        "depths): running the body equals performing its flattened writes; the write targets are pairwise unrelated members "
@@ -281,7 +282,8 @@ PROPS = {
                    sweep_front("hooks", 60, 2000, cats=["exit", "missing-func"]),
                    sweep_front("notations", 80, 2000, cats=["exit", "missing-func"]),
                    sweep_front("signatures", 60, 2000, cats=["exit", "missing-func"]),
-                   sweep_front("selection", 60, 2000, cats=["exit", "missing-func"])],
+                   sweep_front("selection", 60, 2000, cats=["exit", "missing-func"]),
+                   sweep_front("imports", 60, 2000, cats=["exit", "missing-func"])],
         "rule": "well-formed setup files with unusual layouts (no comments, one-line interfaces, comments on brace lines, adjacent "
                 "declarations, several interfaces, CRLF, no final newline, directives in both spellings, surrounding declarations of "
                 "every kind) and well-formed notation mixes; judged: exit 0 and one function per method; distinct = distinct "
@@ -311,7 +313,9 @@ PROPS = {
         "bridge": RENDER + TABLES + NODES + DEC("Cast", "Util"),
         "sweeps": [sweep_front("matching", 150, 4000, cats=["body", "slice", "stderr"]),
                    sweep_front("plain", 60, 3000, cats=["body", "slice", "stderr"]),
-                   sweep_front("mixed", 60, 2000, cats=["body", "slice", "stderr"])],
+                   sweep_front("mixed", 60, 2000, cats=["body", "slice", "stderr"]),
+                   # which conversions a method opted into: interface-level defaults, several interfaces in one file
+                   sweep_front("scoping", 60, 2000, cats=["body", "slice", "stderr"])],
         "rule": FRONT_RULE % "matching" + SPEC_RULE,
         "explanation": "fieldDefault_spec: the default matcher returns `no match` exactly when every candidate (getters under :getter "
                        "first, then fields; none under :match none) yields nothing, otherwise the statement of the first candidate that "
